@@ -2106,13 +2106,43 @@ func (w *Writer) exprConstValueUncached(handle ir.ExpressionHandle, memo map[ir.
 		left, leftOk := w.exprConstValueMemo(k.Left, memo)
 		right, rightOk := w.exprConstValueMemo(k.Right, memo)
 		if leftOk && rightOk {
-			return ir.EvalBinaryFloat(k.Op, left, right), true
+			r := ir.EvalBinaryFloat(k.Op, left, right)
+			if _, isInt := w.exprIntegerKind(handle); isInt && k.Op == ir.BinaryDivide {
+				r = float64(int64(r)) // the float64 carrier keeps the fraction of an integer quotient
+			}
+			return r, true
 		}
 	case ir.ExprUnary:
 		val, ok := w.exprConstValueMemo(k.Expr, memo)
 		if ok {
+			if k.Op == ir.UnaryBitwiseNot {
+				// ~x depends on the operand's signedness, which the carrier does not have
+				switch kind, _ := w.exprIntegerKind(handle); kind {
+				case ir.ScalarUint:
+					return float64(^uint32(int64(val))), true
+				case ir.ScalarSint:
+					return float64(^int32(int64(val))), true
+				}
+				return 0, false
+			}
 			return ir.EvalUnaryFloat(k.Op, val), true
 		}
+	}
+	return 0, false
+}
+
+// exprIntegerKind reports the scalar kind of an expression of 32-bit integer type.
+func (w *Writer) exprIntegerKind(handle ir.ExpressionHandle) (ir.ScalarKind, bool) {
+	if int(handle) >= len(w.currentFunction.ExpressionTypes) {
+		return 0, false
+	}
+	res := &w.currentFunction.ExpressionTypes[handle]
+	inner := res.Value
+	if res.Handle != nil && int(*res.Handle) < len(w.module.Types) {
+		inner = w.module.Types[*res.Handle].Inner
+	}
+	if s, ok := inner.(ir.ScalarType); ok && (s.Kind == ir.ScalarSint || s.Kind == ir.ScalarUint) {
+		return s.Kind, true
 	}
 	return 0, false
 }
@@ -2135,9 +2165,9 @@ func (w *Writer) formatConstResult(protoExpr ir.ExpressionHandle, val float64) s
 				}
 				return "false"
 			case ir.ScalarSint:
-				return fmt.Sprintf("%d", int32(val))
+				return fmt.Sprintf("%d", int32(int64(val)))
 			case ir.ScalarUint:
-				return fmt.Sprintf("%du", uint32(val))
+				return fmt.Sprintf("%du", uint32(int64(val)))
 			}
 		}
 	}
